@@ -675,6 +675,26 @@ def endpoint_families(rec, rng):
                           {"family": "padded-redirect-targets", "path": path}, monitor="follow")
             return
 
+    # (d) numbers that str() writes with an exponent (17 and more digits, many leading zeros) and digit runs no float holds:
+    # the redirect target is written positionally and matches; where the value has no URL the request is not redirected
+    m = Map([Rule("/f/<float:v>", endpoint="fl", alias=True), Rule("/g/<float:v>", endpoint="fl"), Rule("/m/<float:v>/", endpoint="m", defaults={"u": "m"}), Rule("/m/<float:v>/<u>/", endpoint="m"),
+             Rule("/s/<float(signed=True):v>", endpoint="sg", alias=True), Rule("/sg/<float(signed=True):v>/", endpoint="sg")])
+    for txt in ("10000000000000000.0", "0.00001", "1.5", "123456789012345678901.5", "0.000000000000000000001234", "99999999999999999999.99999", "00012.500", "9" * 400 + ".0", "1" * 309 + ".5"):
+        val = float(txt)
+        for path, ep in ((f"/f/{txt}", "fl"), (f"/m/{txt}/m/", "m"), (f"/m/{txt}/m", "m"), (f"/s/-{txt}", "sg"), (f"/sg/{txt}", "sg")):
+            v_ = -val if path.startswith("/s/") else val
+            want = ("match", ep, tuple(sorted({"v": v_, **({"u": "m"} if ep == "m" else {})}.items())))
+            got, trail = follow(m, "http", path)
+            rec.case()
+            rec.nontrivial(("exponent-floats", path[:40]))
+            rec.observe("redirects_for_floats_written_with_an_exponent")
+            ok = (got == ("NotFound",) and not trail) if val == float("inf") else (got == want and len(trail) <= 2)
+            if not ok:
+                key = "C12/redirect-target-NotFound" if got == ("NotFound",) and trail else "C12/redirect-chain-does-not-terminate" if got == ("loop",) else "C12/redirect-changes-endpoint-or-arguments"
+                rec.violation(key, f"{path[:60]!r} ({len(path)} characters) denotes {want!r}; following the router gives {got!r} via {[t[:60] for t in trail]!r}",
+                              {"family": "exponent-floats", "path": path}, monitor="follow")
+                return
+
 
 def concurrent_first_use(rec, rng, n):
     """Two threads hit a fresh map at once (yields injected inside Map.update): an alias registered before its
